@@ -271,8 +271,10 @@ def run_cmdline_solution(text: str, tmp) -> Dict[str, Any]:
     out, err = io.StringIO(), io.StringIO()
     # write_requirements_file's default stream is the sys.stdout of import time: hand it ours for the call
     wrf = CL.write_requirements_file
-    saved_defaults = wrf.__defaults__
-    wrf.__defaults__ = tuple(out if d is sys.__stdout__ or d is sys.stdout else d for d in saved_defaults)
+    saved_defaults, saved_kwdefaults = wrf.__defaults__, wrf.__kwdefaults__
+    wrf.__defaults__ = None if saved_defaults is None else tuple(out if d is sys.__stdout__ or d is sys.stdout else d for d in saved_defaults)
+    if saved_kwdefaults:     # (the same default, should the parameter become keyword-only)
+        wrf.__kwdefaults__ = {k: (out if d is sys.__stdout__ or d is sys.stdout else d) for k, d in saved_kwdefaults.items()}
     try:
         with contextlib.redirect_stdout(out), contextlib.redirect_stderr(err):
             CL.compile_main(["--solution", str(sol), "--no-index", str(inp)])
@@ -280,10 +282,14 @@ def run_cmdline_solution(text: str, tmp) -> Dict[str, Any]:
     except SystemExit as ex:
         res = {"outcome": "exit", "code": ex.code if isinstance(ex.code, int) else (0 if ex.code is None else 1)}
     except BaseException as ex:  # noqa: BLE001
+        if isinstance(ex, KeyboardInterrupt):
+            raise
+        common.reraise_harness_fault(ex)     # an error of the harness's own observer frames is not a traceback of the tool
         res = {"outcome": "traceback", "class": type(ex).__name__, "msg": str(ex)[:120]}
     finally:
         SOLM.SolutionRepository._add_sources = orig
         wrf.__defaults__ = saved_defaults
+        wrf.__kwdefaults__ = saved_kwdefaults
     res["inner"] = inner[:1]
     res["stderr_tail"] = err.getvalue().strip().split("\n")[-1][:160]
     return res
@@ -295,8 +301,10 @@ def run_cmdline_argv(argv: List[str]) -> Dict[str, Any]:
     import req_compile.cmdline as CL
     out, err = io.StringIO(), io.StringIO()
     wrf = CL.write_requirements_file
-    saved_defaults = wrf.__defaults__
-    wrf.__defaults__ = tuple(out if d is sys.__stdout__ or d is sys.stdout else d for d in saved_defaults)
+    saved_defaults, saved_kwdefaults = wrf.__defaults__, wrf.__kwdefaults__
+    wrf.__defaults__ = None if saved_defaults is None else tuple(out if d is sys.__stdout__ or d is sys.stdout else d for d in saved_defaults)
+    if saved_kwdefaults:     # (the same default, should the parameter become keyword-only)
+        wrf.__kwdefaults__ = {k: (out if d is sys.__stdout__ or d is sys.stdout else d) for k, d in saved_kwdefaults.items()}
     try:
         with contextlib.redirect_stdout(out), contextlib.redirect_stderr(err):
             CL.compile_main(list(argv))
@@ -304,9 +312,13 @@ def run_cmdline_argv(argv: List[str]) -> Dict[str, Any]:
     except SystemExit as ex:
         res = {"outcome": "exit", "code": ex.code if isinstance(ex.code, int) else (0 if ex.code is None else 1)}
     except BaseException as ex:  # noqa: BLE001
+        if isinstance(ex, KeyboardInterrupt):
+            raise
+        common.reraise_harness_fault(ex)     # an error of the harness's own observer frames is not a traceback of the tool
         res = {"outcome": "traceback", "class": type(ex).__name__, "msg": str(ex)[:120]}
     finally:
         wrf.__defaults__ = saved_defaults
+        wrf.__kwdefaults__ = saved_kwdefaults
     res["stderr_tail"] = err.getvalue().strip().split("\n")[-1][:160]
     return res
 
